@@ -934,7 +934,7 @@ def find_replace(
             indentation = range_start - line_start
 
         template_replacement = textwrap.dedent(template_replacement)
-        if indentation:
+        if indentation and template_replacement.strip():
             template_replacement = template_replacement.lstrip("\n")
             first_line, *other_lines = template_replacement.splitlines(keepends=True)
             template_replacement = first_line + textwrap.indent(
